@@ -64,6 +64,14 @@ CHECKS = {
             "1-2 injected faults. Held on the tokens observed.",
             "Trusted: mf/render.py position tracking (LF counts a line, tab one column).",
             "DESIGN.md 2 C08"),
+    "C09": ("exhaustive sweep of annotated schema entries x contexts x boundary versions judged against an independent verdict (own "
+            "inlining + own recursive pruning + jsonschema evaluator); icontract postcondition on get_versioned_schema; history "
+            "relation one-Validator vs fresh-Validator",
+            "All 110 annotated entries (keywords, value alternatives, connectionoptions) in every parent chain from MAP and as root, "
+            "versions at/below/above each bound plus every distinct bound and none (exhaustive, ~5.9k validations); random histories "
+            "of validate/export calls on one Validator. Held on what was evaluated.",
+            "Trusted: jsonschema evaluator + schema files (shared); mf/schemamodel.prune as the statement of the version rule.",
+            "DESIGN.md 2 C09"),
     "C10": ("boundary relation: intended expression tree vs the string stored by the real parser, read back by an "
             "independent tokenizer + precedence parser; fixed-point and printed-unquoted relations on the same events",
             "All operator structures up to 3 (quick) / 4 (thorough) operators and random trees up to 12 operators, every "
